@@ -1,5 +1,5 @@
 """Property -> rule composition.  Each function decides the statically decidable clauses of one property."""
-from .rules import kdefects, numeric, seed, typestate, ownership, clifford
+from .rules import kdefects, numeric, seed, typestate, ownership, clifford, circuit, stabilizer, adjoint
 
 M = 'numqi.'
 DECISION_C05 = ['numqi.entangle.ppt.is_ppt', 'numqi.entangle.ppt.is_generalized_ppt',
@@ -43,6 +43,49 @@ def c07(proj, rep, tier):
                'runtime arrays and is not decided')
 
 
+def c03(proj, rep, tier):
+    n = circuit.d2(proj, rep)
+    rep.floor('D2 gate registry entries', n, 24)
+    n = adjoint.d1(proj, rep)
+    rep.floor('D1 dispatch obligations', n, 17)
+    n = circuit.u1(proj, rep)
+    rep.floor('U1 to_unitary', n, 1)
+    rep.assume("the kind 'kraus' has no dispatch arm by the source's own `# TODO kraus` (circuit.py): recorded but not claimed")
+    rep.assume('the einsum relabelling inside state.apply_gate / _control_n_index / dm.apply_gate is built from computed index '
+               'lists and is value-level: not decided')
+
+
+def c04(proj, rep, tier):
+    n = adjoint.a4_a5(proj, rep)
+    rep.floor('A4 autograd.Function classes', n, 5)
+    n = adjoint.a2_grad_helpers(proj, rep)
+    rep.floor('A2 adjoint pairings in the *_grad helpers', n, 4)
+    n = adjoint.a_kl(proj, rep)
+    rep.floor('A Knill-Laflamme backward obligations', n, 5)
+    n = adjoint.d1(proj, rep)
+    rep.floor('D1/A1/A3 circuit sweep obligations', n, 17)
+    rep.assume('that the accumulated numbers equal the derivative (Sylvester backward of sqrtm, Pade logm, the op_grad einsum) is '
+               'value-level: not decided')
+
+
+def c19(proj, rep, tier):
+    n = circuit.q1(proj, rep)
+    rep.floor('Q1 parser letters', n, 3)
+    n = circuit.q2(proj, rep)
+    rep.floor('Q2 enumeration obligations', n, 4)
+    n = circuit.q3(proj, rep)
+    rep.floor('Q3 shipped codes', n, 8)
+    n = circuit.d2(proj, rep)
+    rep.floor('D2 gate registry entries (ties encoder gate names to operators)', n, 24)
+    n = stabilizer.q4(proj, rep)
+    rep.floor('Q4 encoders interpreted in the tableau domain', n, 8)
+    n = adjoint.a_kl(proj, rep)
+    rep.floor('A Knill-Laflamme backward obligations', n, 5)
+    adjoint.a4_a5(proj, rep, only={'numqi.qec._internal._KnillLaflammeInnerProductTorchOp'})
+    rep.assume('Q4 assumes the simulator applies each recorded gate as the operator of its registry entry (subject of C03)')
+    rep.assume('asymmetric error sets and weight-enumerator sum rules are value-level: not decided')
+
+
 def c10(proj, rep, tier):
     nfun, tot = seed.run(proj, rep, None)
     n = seed.s5(proj, rep, None)
@@ -75,7 +118,7 @@ def c20(proj, rep, tier):
 
 
 def dev(proj, rep, tier):
-    print(seed.s5(proj, rep, None))
+    print(adjoint.a4_a5(proj, rep), adjoint.a2_grad_helpers(proj, rep), adjoint.a_kl(proj, rep), adjoint.d1(proj, rep))
 
 
-PROPS = {'C05': c05, 'C07': c07, 'C10': c10, 'C11': c11, 'C18': c18, 'C20': c20, 'DEV': dev}
+PROPS = {'C03': c03, 'C04': c04, 'C05': c05, 'C07': c07, 'C19': c19, 'C10': c10, 'C11': c11, 'C18': c18, 'C20': c20, 'DEV': dev}
